@@ -3,7 +3,7 @@
    for the binary64 instance that is compared bit-exactly with the code. *)
 From Coq Require Import ZArith QArith List Bool.
 From V Require Import Base.Num Model.StreamCore Model.Zliobaite Model.StreamCounters
-  Model.Biqf Proofs.StreamGeneric Proofs.StreamGenericX Proofs.ZlProofs Proofs.CounterProofs Proofs.BiqfProofs.
+  Model.Biqf Proofs.StreamGeneric Proofs.StreamGenericX Proofs.ZlProofs Proofs.CounterProofs Proofs.BiqfProofs Model.StreamStrategy Proofs.StreamStrategyProofs.
 Import ListNotations.
 Close Scope Q_scope.
 
@@ -91,6 +91,44 @@ Theorem C03_biqf_query_idempotent :
   b_query quant p (snd (b_query quant p s xs)) xs = b_query quant p s xs.
 Proof. intros. apply (x_query_idempotent (b_inst quant p)). apply b_query_pure. Qed.
 Print Assumptions C03_biqf_query_idempotent.
+
+
+(* ---- strategy layer: a classifier-based stream strategy (utility oracle, optional sliding-window
+   density test with its own state, lazily created manager) on top of a window-based manager.
+   For EVERY utility oracle [inp] and EVERY filter [wstep] (in particular StreamDensityBasedAL's
+   _calculate_ldf, Model/StreamStrategy.ldf_step): query restores the complete state (window,
+   min_dist, manager, generator position), extra queries are invisible in every history, and it does
+   not matter whether query or update creates the manager. ---- *)
+Theorem C03_strategy_query_restores_state :
+  forall (F : Type) (N : Num F) (k : zkind) (p : zparams) (C W : Type) (wstep : W -> C -> bool * W)
+         (inp : bool -> C -> zin) (s : W * zstate) (cs : list C),
+  snd (squery (zquery k p) wstep inp s cs) = s /\
+  squery (zquery k p) wstep inp (snd (squery (zquery k p) wstep inp s cs)) cs = squery (zquery k p) wstep inp s cs.
+Proof.
+  intros. split.
+  - apply (strategy_query_restores_state (inst k p)). apply zquery_pure.
+  - apply (strategy_query_idempotent (inst k p)). apply zquery_pure.
+Qed.
+Print Assumptions C03_strategy_query_restores_state.
+
+Theorem C03_strategy_extra_queries_invisible :
+  forall (F : Type) (N : Num F) (k : zkind) (p : zparams) (C W : Type) (wstep : W -> C -> bool * W)
+         (inp : bool -> C -> zin) (h : list xop) (s : W * zstate),
+  let sq := squery (zquery k p) wstep inp in
+  let su := supdate (fun m xs idx => zupdate k p m (length xs) idx) wstep inp in
+  snd (xrun sq su s h) = snd (xrun sq su s (filter x_is_update h)).
+Proof. intros. apply (strategy_extra_queries_invisible (inst k p)). apply zquery_pure. Qed.
+Print Assumptions C03_strategy_extra_queries_invisible.
+
+Theorem C03_strategy_lazy_manager_invisible :
+  forall (F : Type) (N : Num F) (k : zkind) (p : zparams) (C W : Type) (wstep : W -> C -> bool * W)
+         (inp : bool -> C -> zin) (init : W * zstate) (h : list xop) (s : option (W * zstate)),
+  let mu := fun m (xs : list zin) idx => zupdate k p m (length xs) idx in
+  fst (lrun (zquery k p) mu wstep inp init s h) = fst (xrun (squery (zquery k p) wstep inp) (supdate mu wstep inp) (force init s) h) /\
+  force init (snd (lrun (zquery k p) mu wstep inp init s h)) =
+    snd (xrun (squery (zquery k p) wstep inp) (supdate mu wstep inp) (force init s) h).
+Proof. intros. apply lazy_creation_invisible. Qed.
+Print Assumptions C03_strategy_lazy_manager_invisible.
 
 (* non-vacuity: a split manager whose query really draws random numbers *)
 Example C03_nonvacuous :
